@@ -230,6 +230,10 @@ theorem gen_bup_parse (grow : Nat → Nat → Nat) (fuel : Nat) (lcp : Slice →
     have hiln' : s.bucketDictionary.bucketHash.inputLen.toNat = iln := by omega
     rw [hiln'] at *
     rw [hiln] at hG
+    -- `minMatchLen`: the clamp in any spelling (`3` first or `inputLen` first, either comparison) is `min 3 inputLen`
+    have hmA : Min.min (iln : Int) 3 = ((Min.min 3 iln : Nat) : Int) := by omega
+    have hmB : Min.min 3 (iln : Int) = ((Min.min 3 iln : Nat) : Int) := by omega
+    simp only [gt_iff_lt, ge_iff_le, ite_lt_min, ite_le_min, hmA, hmB] at hG
     -- the margin reslice `_p := s.Data[:inputEnd+7]`
     have hrm : ∀ il : Nat, ProbeW.resliceMargin (List.take (Wn + nN) A) (List.drop (Wn + nN) A) il =
         if ((Wn + nN : Nat) : Int) - (il : Int) + 1 + 7 < 0 ∨ (A.length : Int) < ((Wn + nN : Nat) : Int) - (il : Int) + 1 + 7
@@ -260,7 +264,7 @@ theorem gen_bup_parse (grow : Nat → Nat → Nat) (fuel : Nat) (lcp : Slice →
           { dict := ofBucket g0, i := Wn, litIndex := Wn, seqs := [], lits := [] } = some st' ∧
         bucketParser_Parse_loop_1 grow lcp (Int.ofNat (Wn + nN) - (iln : Int) + 1)
           { arr := A, len := (Int.ofNat (Wn + nN) - (iln : Int) + 1 + 7).toNat } { arr := A, len := Wn + nN }
-          (if (iln : Int) < 3 then (iln : Int) else 3) fuel (Wn : Int)
+          ((Min.min 3 iln : Nat) : Int) fuel (Wn : Int)
           { bucketDictionary := { ParserBuffer := s.bucketDictionary.ParserBuffer, bucketHash := g0 },
             BUPConfig := s.BUPConfig }
           { Sequences := [], Literals := { arr := blk.Literals.arr, len := 0 } } (Wn : Int) =
@@ -270,8 +274,7 @@ theorem gen_bup_parse (grow : Nat → Nat → Nat) (fuel : Nat) (lcp : Slice →
         BOK g' ∧ SameCfg g0 g' ∧ st'.dict = ofBucket g' ∧
         blk'.Sequences = st'.seqs.map seqRep ∧ blk'.Literals.data = st'.lits ∧ SWF blk'.Literals ∧
         Wn ≤ st'.litIndex ∧ st'.litIndex ≤ Wn + nN := by
-      have hmmI : (if (iln : Int) < 3 then (iln : Int) else 3) = ((Min.min 3 iln : Nat) : Int) := by
-        split <;> omega
+      have hmmI : (((Min.min 3 iln : Nat) : Int)) = ((Min.min 3 iln : Nat) : Int) := rfl
       by_cases h0 : (Wn : Int) < Int.ofNat (Wn + nN) - (iln : Int) + 1
       · have h0' : (Wn : Int) < ((Wn + nN : Nat) : Int) - (iln : Int) + 1 := h0
         have hEI : Int.ofNat (Wn + nN) - (iln : Int) + 1 = ((Wn + nN + 1 - iln : Nat) : Int) := by
@@ -319,7 +322,11 @@ theorem gen_bup_parse (grow : Nat → Nat → Nat) (fuel : Nat) (lcp : Slice →
     by_cases hfin : flags.toNat % 2 = 1 ∧ st'.seqs ≠ []
     · rw [if_pos hfin]
       have hne : st'.seqs.length ≠ 0 := fun hc => hfin.2 (List.eq_nil_of_length_eq_zero hc)
-      rw [if_pos ⟨(iand_one flags hfl).mpr hfin.1, by show (blk'.Sequences.length : Int) > 0; omega⟩, bind_ok] at hG
+      have hcnd : iand flags 1 ≠ 0 ∧ Int.ofNat blk'.Sequences.length > 0 :=
+        ⟨(iand_one flags hfl).mpr hfin.1, by show (blk'.Sequences.length : Int) > 0; omega⟩
+      -- the test of the epilogue in any spelling (De Morgan with swapped arms, `== 0` / `<= 0` for `> 0`)
+      first | rw [if_pos (by int_omega)] at hG | rw [if_neg (by int_omega)] at hG
+      rw [bind_ok] at hG
       dsimp only at hG
       refine ⟨withWB s (st'.litIndex : Int) g', blk', hG.symm.trans ?_, ?_, rfl, Or.inl rfl, hseq', hlit', hswf', hPt _ hli2⟩
       · rw [hWn]
@@ -335,7 +342,8 @@ theorem gen_bup_parse (grow : Nat → Nat → Nat) (fuel : Nat) (lcp : Slice →
         have h2' : (blk'.Sequences.length : Int) > 0 := h2
         rw [hslen, hc] at h2'
         exact absurd h2' (by decide)
-      rw [if_neg hcond, slice_okI _ _ (Int.ofNat (Wn + nN)) st'.litIndex (Wn + nN) rfl rfl hli2
+      first | rw [if_neg (by int_omega)] at hG | rw [if_pos (by int_omega)] at hG
+      rw [slice_okI _ _ (Int.ofNat (Wn + nN)) st'.litIndex (Wn + nN) rfl rfl hli2
         (by show Wn + nN ≤ A.length; omega), bind_ok, bind_ok] at hG
       dsimp only at hG
       refine ⟨withWB s ((Wn + nN : Nat) : Int) g',
